@@ -10,6 +10,8 @@ O2  receiver step: update() on a node of a symbolic level with a multicast frame
     exactly once to the next level's address, unacknowledged, iff multicast_relay is enabled
     (asserted for levels 1..3); no transmission without relay; the node keeps listening with
     auto-ack off on pipe 0 (so it never acknowledges a multicast).
+O3  the same auto-ack post-condition after routed unicasts with and without an awaited NETWORK_ACK
+    (the C07 harness), because a node that left auto-ack on would acknowledge the next multicast.
 With C04-O2/O3 (level addresses are shared by exactly the nodes of a level and differ from every
 unicast address; pipe 0 is not the level address when allow_multicast is off) this gives
 "every node of level L and no node of any other level".
@@ -82,6 +84,11 @@ def o2_receiver(ctx, role, lvl, relay, n):
             ctx.check(len(pk[0]["data"]) == len(frame) and bytes_eq(pk[0]["data"], frame), "re-broadcast frame is byte-identical")
     else:
         ctx.check(len(pk) <= 1, "at most one transmission")
+        # a relaying node of level 0 or 4 has no "next level" the statement speaks of; whatever it transmits must not reach
+        # a level it was not meant for: nothing on the address of levels 0..4 from a level-4 node, nothing beyond level 1 from the master
+        for e in pk:
+            for L in (range(0, 5) if lvl == 4 else range(2, 5)):
+                ctx.check(s_not(bytes_eq(e["addr"], NS.level_addr(L))), "a relaying node of level %d transmits nothing to level %d" % (lvl, L))
     listening_ok(ctx, radio, addr, "after a received multicast")
     ctx.reached()
 
@@ -97,6 +104,13 @@ def jobs(tier):
                 for n in (lens if (role == "net" or tier == "thorough") else (0,)):
                     out.append(Job("O1-sender", o1_sender, dict(role=role, lx=lx, lvl=lvl, n=n), cost=5 + n // 8))
     out.append(Job("O1-sender", o1_sender, dict(role="master", lx=0, lvl="sym", n=1), cost=5))
+    # "no receiver acknowledges it": after a routed unicast (also one that awaited a NETWORK_ACK) auto-ack stays off on pipe 0
+    from checks import c07
+    for lvl in (1, 2):
+        for op in ("write_other", "write_desc", "write_parent"):
+            for ack in (False, True):
+                out.append(Job("O3-no-hardware-ack-on-pipe0-after-unicast", c07.h_history,
+                               dict(role="net", lvl=lvl, ops=[op], n=0, ack_arrives=ack), cost=10, shards=3))
     for role in ("routing", "net", "mesh", "master"):
         for lvl in ((0,) if role == "master" else range(0 if role != "mesh" else 1, 5)):
             for relay in (False, True):
